@@ -398,7 +398,7 @@ def main(argv=None) -> int:
             if cur is None:
                 sweeps[k] = dict(v)
             else:
-                cur["size"] += v["size"]
+                cur["size"] = max(cur["size"], v["size"])   # every shard reports the size of the whole sweep
                 cur["complete"] = cur["complete"] and v["complete"]
         for k, v in r["extra"].items():
             if isinstance(v, (int, float)) and isinstance(extra.get(k, 0), (int, float)):
